@@ -1702,3 +1702,32 @@ func (cx *Ctx) processStateUses(roots []*ssa.Function) []string {
 	sort.Strings(out)
 	return out
 }
+
+// sharedNumberRule: ND8 for the functions of the given modules, reported under a property of
+// that module (C18: a generator value whose computation overwrites a number shared with
+// other requests is not a function of this request's inputs alone).
+func (cx *Ctx) sharedNumberRule(r *Report, mods []string, rule string) int {
+	reach := cx.consensusReach()
+	n := 0
+	for _, f := range reach.Order {
+		if f.Blocks == nil || !isIrismodFunc(f) || !isConsensusCode(cx, f) || !contains(mods, moduleOf(funcPkgPath(f))) {
+			continue
+		}
+		for _, b := range f.Blocks {
+			for _, ins := range b.Instrs {
+				x, ok := ins.(*ssa.Call)
+				if !ok {
+					continue
+				}
+				if m, recv := inPlaceMutator(x); m != "" {
+					n++
+					if !cx.freshNumber(recv, 0, map[ssa.Value]bool{}) {
+						r.violate(rule, moduleOf(funcPkgPath(f))+"|"+shortFn(f)+"|"+m, cx.P.Pos(x.Pos()), "in-place arithmetic "+m+" on "+describeValue(recv)+", a number that "+shortFn(f)+" did not create: the value it was taken from (a cached seed, a field shared by copies of the generator) changes with every use, so the next result depends on how many were produced before it - not on that request's own inputs")
+					}
+				}
+			}
+		}
+	}
+	r.ok(rule, "scan", "", fmt.Sprintf("%d receiver-overwriting arithmetic calls in modules %v, each on a number created in the same function", n, mods))
+	return n
+}
